@@ -362,7 +362,16 @@ func scanAfter(w *World, reason string) {
 }
 
 func init() {
-	register(&Profile{Name: "c06", Prop: "C06", Generate: genScan("c06", false), After: scanAfter,
+	cacheMonitor := func(w *World) {
+		// the C08 monitor: scans hold the cached region descriptors in their hands
+		w.Env.Invariant = func() error {
+			if w.Env.Step%32 == 0 {
+				return w.CacheInvariant()
+			}
+			return nil
+		}
+	}
+	register(&Profile{Name: "c06", Prop: "C06", Generate: genScan("c06", false), After: scanAfter, Setup: cacheMonitor,
 		Check: func(w *World, reason string) []Violation {
 			vs := w.checkC06()
 			if w.Env.StopErr == nil {
@@ -379,7 +388,7 @@ func init() {
 			}
 			return n >= 2
 		}})
-	register(&Profile{Name: "c14", Prop: "C14", Generate: genScan("c14", true), After: scanAfter,
+	register(&Profile{Name: "c14", Prop: "C14", Generate: genScan("c14", true), After: scanAfter, Setup: cacheMonitor,
 		Check: func(w *World, reason string) []Violation {
 			vs := w.checkC14()
 			if w.Env.StopErr == nil {
